@@ -359,6 +359,12 @@ u_enc(uint64_t idx, void *arg)
             enc_case(k, e, len, len % 5, (len / 5) % 3, (len / 3) % 4, (int)(len % 3));
             enc_case(k, e, len, 0, 0, 0, (int)((len + 1) % 3));
             n += 2;
+            if (vh_tier)
+                for (size_t lay = 0; lay < 12; lay++) {
+                    vh_arena_reset();
+                    enc_case(k, e, len, lay % 4, lay % 3, (lay / 3) % 4, (int)(lay % 3));
+                    n++;
+                }
         }
         vh_sig(0x13000000ull ^ ((uint64_t)k << 32) ^ len);
     }
